@@ -23,6 +23,7 @@ type RegOp struct {
 	Chain int    `json:"chain"`
 	EKey  int    `json:"ekey"` // external key from a small pool
 	Orch  int    `json:"orch"` // orchestrator account from a small pool (some are validators' own accounts)
+	Spell int    `json:"spell,omitempty"` // spelling of the external address in the message: 0 checksummed, 1 lower case, 2 upper case, 3 "0X" prefix, 4 no prefix
 	Sig   int    `json:"sig"`  // 0 good, 1 future nonce, 2 stale nonce, 3 other key signs, 4 signed for another validator, 5 garbage, 6 replay of the last good signature
 }
 
@@ -67,6 +68,7 @@ func genRegCase(t *rapid.T) interface{} {
 			op.EKey = rapid.IntRange(0, regKeys-1).Draw(t, "ekey")
 			op.Orch = rapid.IntRange(0, regOrchs-1).Draw(t, "orch")
 			op.Sig = rapid.SampledFrom([]int{0, 0, 0, 0, 0, 0, 1, 2, 3, 4, 5, 6}).Draw(t, "sig")
+			op.Spell = rapid.SampledFrom([]int{0, 0, 0, 1, 2, 3, 4}).Draw(t, "spell")
 		case k < 9:
 			op.Kind = "vote"
 			op.Orch = rapid.IntRange(0, regOrchs-1).Draw(t, "orch")
@@ -242,7 +244,7 @@ func runRegCase(ci interface{}, rec *pbt.Rec) *pbt.Failure {
 				reuseAttempts++
 			}
 			before := h.StateHash()
-			res := h.Deliver(&mtypes.MsgDelegateKeys{ValidatorAddress: valAddr.String(), OrchestratorAddress: o.String(), ExternalAddress: e.Hex(), EthSignature: sig, ChainId: ch})
+			res := h.Deliver(&mtypes.MsgDelegateKeys{ValidatorAddress: valAddr.String(), OrchestratorAddress: o.String(), ExternalAddress: spellAddr(e, op.Spell), EthSignature: sig, ChainId: ch})
 			ok := res.Err == nil
 			if ok {
 				accepted++
